@@ -669,7 +669,7 @@ func C11(p *Prog, r *Run) {
 			}
 		}
 		r.OK("typed-nil.scan", "neat/network", fmt.Sprintf("%d pointer-to-interface conversions reaching an interface result, all guarded by a nil test", n))
-		r.Floor("pointer-to-interface result conversions", n, 3)
+		r.Floor("pointer-to-interface result conversions", n, 1)
 		if p.Fix != nil {
 			if ffn := p.Fix.FuncOpt("typednil", "Store.Get"); ffn != nil && len(check(p.Fix, ffn)) > 0 {
 				r.Note("positive fixture typednil.Store.Get reported")
